@@ -726,6 +726,11 @@ class AttackGraph():
         if logger.isEnabledFor(logging.DEBUG):
             # Avoid running json.dumps when not in debug
             logger.debug(f'Remove node "%s"(%d).', node.full_name, node.id)
+        if node.id is None or self._id_to_node.get(node.id) is not node:
+            # (list.remove below would take a node that merely compares
+            # equal, e.g. the node a regenerated graph has in its place)
+            raise ValueError(
+                f'Node "{node.full_name}" is not part of the attack graph.')
         for child in node.children:
             child.parents.remove(node)
         for parent in node.parents:
